@@ -269,6 +269,13 @@ def same_phys(x, y, rel=1e-9):
                for k in px)
 
 
+def float_tie(case):
+    a = case["a"]
+    vals = a.get("vs") if a.get("k") == "h" else [a.get("m", 0.0)]
+    p = 10 ** case["extra"]["n"]
+    return any(abs(abs(v * p - math.floor(v * p)) - 0.5) < 1e-6 for v in (vals or []))
+
+
 def run_shard(args):
     seed, n = args
     rng = random.Random(seed)
@@ -303,6 +310,11 @@ def run_shard(args):
                     why = None if lv is None else why
                 if why:
                     dis = why
+        if dis and c["op"] == "round" and float_tie(c):
+            # numpy rounds x·10ⁿ computed in binary floating point; the model rounds the exact rational.  They may
+            # differ only when x·10ⁿ lands on a tie in floats: floating point, outside the model (DESIGN §9)
+            out["inconclusive"] += 1
+            dis = None
         if dis:
             out["disagreements"].append({"case": c, "why": str(dis)})
         # --- direct oracle (laws) on the real result
